@@ -112,7 +112,8 @@ theorem flatpack_step_complete_is_solution (rnd : Rat → Rat) (cfg : Cfg) (s : 
     IsSolution cfg (step rnd cfg s (act b k r c)).1 :=
   FlatPack.step_complete_is_solution rnd cfg s hi b k r c hin hsum hall
 
-/-- (wave 3) WHOLE PLAYS from a generated instance (certificates `blocksOK`, `freshOK`, evaluated by `flat_pack.instance` on
+/-- (wave 3; "OF CERTIFICATE", audit r5 #3: proved for the toy generators in `flatpack_toy_feasible_along`) WHOLE PLAYS from an
+instance satisfying the certificates (`blocksOK`, `freshOK`, evaluated by `flat_pack.instance` on
 every real reset state): after ANY sequence of actions of the action space — legal or ignored, through LAST or not
 (`runAll` does not stop) — the state is feasible and its cached mask is the set of legal moves; in particular at the first
 LAST (`endState`) -/
@@ -292,7 +293,39 @@ theorem flatpack_solvable_by_actions (cfg : Cfg) (s : State) (h : tilesByActions
     ∃ choice, IsTiling cfg.numRows cfg.numCols
       (s.blocks.map (fun b => (poses cfg).map (fun p => poseCells b p.1 p.2.1 p.2.2))) choice :=
   FlatPack.tilesByActions_sound cfg s h
+
+/-! #### audit r5 #3: the certificates PROVED for the two toy generators (the random generator's instances are covered "of
+certificate" only: `blocksOK`, `freshOK`, `BlocksBounded`, `tilesByActions` are evaluated on every real reset state by the
+harness, not derived from a transliteration of `RandomFlatPackGenerator`) -/
+
+/-- both toy generators (either reward function): the emitted state is well formed (`blocksOK`: four 3 × 3 blocks, each of one
+positive number, numbers pairwise different), fresh (`freshOK`: empty grid, nothing placed, counter 0, the block cells add up to
+the 25 grid cells, and the literal all-ones mask `jnp.ones((4,4,3,3))` IS the set of legal moves on the empty grid), bounded
+(`BlocksBounded`), and SOLVABLE by actions of the action space (`tilesByActions`, hence `flatpack_solvable_by_actions`) -/
+theorem flatpack_toy_cert (cd : Bool) :
+    (blocksOK (toyCfg cd) toyGenerateRot = true ∧ freshOK (toyCfg cd) toyGenerateRot = true ∧
+      BlocksBounded (toyCfg cd) toyGenerateRot.blocks ∧ tilesByActions (toyCfg cd) toyGenerateRot = true ∧
+      tilesFree (toyCfg cd) toyGenerateRot = true ∧ legalMask (toyCfg cd) toyGenerateRot = toyOnesMask) ∧
+    (blocksOK (toyCfg cd) toyGenerateNoRot = true ∧ freshOK (toyCfg cd) toyGenerateNoRot = true ∧
+      BlocksBounded (toyCfg cd) toyGenerateNoRot.blocks ∧ tilesByActions (toyCfg cd) toyGenerateNoRot = true ∧
+      tilesFree (toyCfg cd) toyGenerateNoRot = true ∧ legalMask (toyCfg cd) toyGenerateNoRot = toyOnesMask) := by
+  cases cd <;>
+  exact ⟨⟨by decide +kernel, by decide +kernel, by decide +kernel, by decide +kernel, by decide +kernel, by decide +kernel⟩,
+         ⟨by decide +kernel, by decide +kernel, by decide +kernel, by decide +kernel, by decide +kernel, by decide +kernel⟩⟩
 end Props.C10
+
+namespace Props.C06
+/-- C06 for the toy generators without certificate hypotheses: after ANY sequence of actions of the action space the state is
+feasible and its cached mask is the set of legal moves -/
+theorem flatpack_toy_feasible_along (rnd : Rat → Rat) (cd : Bool) (s : State) (hs : s = toyGenerateRot ∨ s = toyGenerateNoRot)
+    (as : List Act4) (hin : InSpecAll (toyCfg cd) as) (n : Nat) :
+    Inv (toyCfg cd) (runAll rnd (toyCfg cd) s (as.take n)) ∧ Feasible (toyCfg cd) (runAll rnd (toyCfg cd) s (as.take n)) ∧
+    Inv (toyCfg cd) (endState rnd (toyCfg cd) s as) := by
+  have hc := Props.C10.flatpack_toy_cert cd
+  rcases hs with rfl | rfl
+  · exact Props.C06.flatpack_feasible_along rnd _ _ hc.1.1 hc.1.2.1 as hin n
+  · exact Props.C06.flatpack_feasible_along rnd _ _ hc.2.1 hc.2.2.1 as hin n
+end Props.C06
 
 namespace Props.C11
 /-- an episode lasts exactly `num_blocks` steps: the step counter grows by one per step, the number of blocks is
@@ -351,19 +384,34 @@ theorem flat_pack_step_obs_in_bounds (rnd : Rat → Rat) (cfg : Cfg) (s : State)
 theorem flatpack_blocks_unchanged (rnd : Rat → Rat) (cfg : Cfg) (s : State) (a : Action) :
     (step rnd cfg s a).1.blocks = s.blocks := by simp [step]
 
+/-! NOTE on what the membership theorems of this section do and do not cover (audits r4 #6, r5 #6, r6 #8): the dtype tag of every leaf
+is written by `toNValue` (by construction) — a wrong dtype in the real code cannot falsify `….valid (toNValue …) = true`; dtypes and
+field order of the real observations are compared by the `flat_pack.state` op (`nvalue`: field order, shape, dtype, data; harness/spec_wave3.py,
+wave3_routing.py) and `jax.eval_shape` in the sweeps.  Shapes are READ OFF the value by `toNValue` (widths off the first row): see
+`…_obs_valid_only`. -/
+
 /-! #### (wave 3) membership in the DECLARED specs: structure, shapes, dtypes and bounds -/
 open Sp PzS PkS
 
 /-- the model's `obsSpec` / `actionSpec` / reward and discount specs ARE the specs generated from the real spec objects
-(Gen/Specs.lean) for the catalogue configuration `FlatPack(RandomFlatPackGenerator(2, 2))` (5 × 5 grid, 4 blocks) -/
+(Gen/Specs.lean) for the catalogue configuration `FlatPack(RandomFlatPackGenerator(2, 2))` (5 × 5 grid, 4 blocks)
+SPEC-ONLY second configuration `FlatPack(RandomFlatPackGenerator(2, 4))`: 5 × 9 grid, 8 blocks, mask `(8, 4, 3, 7)` — rows, columns,
+blocks, rotations, `R − 2` and `C − 2` pairwise distinct (audit r5 #2) -/
 theorem flatpack_obsSpec_generated :
     prefixed "observation_spec." (obsSpec ⟨5, 5, 4, true⟩) = declared "flatpack-2x2" "observation_spec." ∧
     [("action_spec", actionSpec ⟨5, 5, 4, true⟩)] = declared "flatpack-2x2" "action_spec" ∧
     [("reward_spec", rewardSpec)] = declared "flatpack-2x2" "reward_spec" ∧
-    [("discount_spec", discountSpec)] = declared "flatpack-2x2" "discount_spec" := by
-  refine ⟨by decide, by decide, by decide, by decide⟩
+    [("discount_spec", discountSpec)] = declared "flatpack-2x2" "discount_spec" ∧
+    prefixed "observation_spec." (obsSpec ⟨5, 9, 8, true⟩) = declared "spec-only-flatpack-2x4" "observation_spec." ∧
+    [("action_spec", actionSpec ⟨5, 9, 8, true⟩)] = declared "spec-only-flatpack-2x4" "action_spec" ∧
+    [("reward_spec", rewardSpec)] = declared "spec-only-flatpack-2x4" "reward_spec" ∧
+    [("discount_spec", discountSpec)] = declared "spec-only-flatpack-2x4" "discount_spec" := by
+  refine ⟨by decide +kernel, by decide +kernel, by decide +kernel, by decide +kernel, by decide +kernel, by decide +kernel,
+    by decide +kernel, by decide +kernel⟩
 
-/-- the `reset` observation of every generated state (certificates `blocksOK`, `freshOK`, `BlocksBounded` — all three
+/-- ("OF CERTIFICATE", audit r5 #3: the model has no transliteration of `RandomFlatPackGenerator`; the hypotheses are discharged in
+Lean only for the two toy generators — `flatpack_toy_obs_valid` — and otherwise by the harness.)  The `reset` observation of every
+state satisfying the generator certificates (`blocksOK`, `freshOK`, `BlocksBounded` — all three
 evaluated by `flat_pack.instance` on the implementation's reset states) is accepted by `observation_spec.validate`: fields
 `grid`, `blocks`, `action_mask`; shapes `(R, C)`, `(num_blocks, 3, 3)`, `(num_blocks, 4, R − 2, C − 2)`; dtypes int32, int32,
 bool; bounds [0, num_blocks] ×2, [0, 1] -/
@@ -378,15 +426,20 @@ theorem flatpack_step_obs_valid (rnd : Rat → Rat) (cfg : Cfg) (hR : 3 ≤ cfg.
     (obsSpec cfg).valid (toNValue (step rnd cfg s (act b k r c)).2.obs) = true :=
   FlatPack.step_obs_valid rnd cfg hR hB s b k r c hi hin hb
 
-/-- WHOLE EPISODES: every observation of the rollout (`Ep.rollout` = the L1 step iterated, through the first LAST and
-beyond) of ANY actions of the action space from a generated state is a member of the spec -/
+/-- WHOLE EPISODES ("of certificate"): every observation of the rollout (`Ep.rollout` = the L1 step iterated, through the first LAST and
+beyond) of ANY actions of the action space from a state satisfying the generator certificates is a member of the spec.
+The dtype tag of every leaf is written by `toNValue` (by construction); dtypes and field order of the real observations are compared by
+the `flat_pack.state` op (`nvalue`) and `jax.eval_shape` in the sweeps. -/
 theorem flatpack_rollout_obs_valid (rnd : Rat → Rat) (cfg : Cfg) (hR : 3 ≤ cfg.numRows) (hB : 0 < cfg.numBlocks) (s : State)
     (hbo : blocksOK cfg s = true) (hf : freshOK cfg s = true) (hb : BlocksBounded cfg s.blocks) (as : List Act4)
     (hin : InSpecAll cfg as) (j : Nat) (e : State × TimeStep Obs)
     (he : (Ep.rollout (stepA rnd cfg) s as)[j]? = some e) : (obsSpec cfg).valid (toNValue e.2.obs) = true :=
   FlatPack.rollout_obs_valid rnd cfg hR hB s hbo hf hb as hin j e he
 
-/-- what membership means (so the theorems above are not hollow) -/
+/-- what membership means (so the theorems above are not hollow)  CAVEAT (audits r4 #7, r5 #5, r6 #5): for every field that is a nested list, `toNValue` reads the widths off the FIRST row of the
+nested list, so the shape conjuncts here mean "row count, length of the first row, total number of cells" — a ragged value with the right total can be a
+member, and nothing is concluded about the later rows.  Rectangularity is part of the invariant (`SpecInv` / `Shaped` / `Rect…`) under which the
+forward theorems (`…_reset_obs_valid`, `…_step_obs_valid`, `…_along`) are proved, i.e. it holds of every EMITTED observation. -/
 theorem flatpack_obs_valid_only (cfg : Cfg) (o : Obs) (h : (obsSpec cfg).valid (toNValue o) = true) :
     shape2 o.grid = [cfg.numRows, cfg.numCols] ∧ (∀ v ∈ o.grid.flatten, v ≤ cfg.numBlocks) ∧
     shape3 o.blocks = [cfg.numBlocks, 3, 3] ∧ (∀ v ∈ o.blocks.flatten.flatten, v ≤ cfg.numBlocks) ∧
@@ -424,4 +477,22 @@ theorem flatpack_accepts_generate_value (rnd : Rat → Rat) (cfg : Cfg) (hR : 3 
 theorem flatpack_action_spec_iff (cfg : Cfg) (b k r c : Nat) :
     (actionSpec cfg).valid (actionArr (act b k r c)) = true ↔ inSpec cfg b k r c = true :=
   FlatPack.actionSpec_valid_iff cfg b k r c
+end Props.C01
+
+namespace Props.C01
+open Sp PzS PkS in
+/-- C01 for the toy generators WITHOUT certificate hypotheses (audit r5 #3): the reset observation, and every observation of the
+rollout of ANY actions of the action space (any rounding, either reward function), is a member of the declared spec -/
+theorem flatpack_toy_obs_valid (rnd : Rat → Rat) (cd : Bool) (s : State) (hs : s = toyGenerateRot ∨ s = toyGenerateNoRot) :
+    (obsSpec (toyCfg cd)).valid (toNValue (resetTimeStep s).obs) = true ∧
+    ∀ (as : List Act4), InSpecAll (toyCfg cd) as → ∀ (j : Nat) (e : State × TimeStep Obs),
+      (Ep.rollout (stepA rnd (toyCfg cd)) s as)[j]? = some e → (obsSpec (toyCfg cd)).valid (toNValue e.2.obs) = true := by
+  have hc := Props.C10.flatpack_toy_cert cd
+  have hR : 3 ≤ (toyCfg cd).numRows := by show 3 ≤ 5; omega
+  have hB : 0 < (toyCfg cd).numBlocks := by show 0 < 4; omega
+  rcases hs with rfl | rfl
+  · exact ⟨Props.C01.flatpack_reset_obs_valid _ hR hB _ hc.1.1 hc.1.2.1 hc.1.2.2.1,
+      fun as hin j e he => Props.C01.flatpack_rollout_obs_valid rnd _ hR hB _ hc.1.1 hc.1.2.1 hc.1.2.2.1 as hin j e he⟩
+  · exact ⟨Props.C01.flatpack_reset_obs_valid _ hR hB _ hc.2.1 hc.2.2.1 hc.2.2.2.1,
+      fun as hin j e he => Props.C01.flatpack_rollout_obs_valid rnd _ hR hB _ hc.2.1 hc.2.2.1 hc.2.2.2.1 as hin j e he⟩
 end Props.C01
